@@ -19,7 +19,22 @@ def nfft_py(arg):
     return None if arg == 0 else ('nextpow2' if arg == 1 else int(arg))
 
 
+def _pyplot():
+    try:
+        import matplotlib
+        matplotlib.use('Agg')
+        import matplotlib.pyplot as plt
+        return plt
+    except Exception:
+        return None
+
+
+_PLOT = [None]
+
+
 def replay_layout(chk, st, data):
+    if _PLOT[0] is None:
+        _PLOT[0] = _pyplot() or False
     dt, N, arg, nfft, sides, ln, bins = (st[k] for k in ('dt', 'N', 'arg', 'nfft', 'sides', 'len', 'bins'))
     sampling = SAMPLINGS[(N + arg) % 3]
     # complex data: also the real samples declared complex (complex dtype, zero imaginary part) as an array
@@ -57,6 +72,16 @@ def replay_layout(chk, st, data):
         ok2, psd2 = call_guard(lambda: (obj(), np.array(obj.psd))[1])
         if not ok2 or psd2.shape != psd.shape or np.max(np.abs(psd2 - psd)) > 1e-9 * np.max(np.abs(psd)) or len(obj.frequencies()) != ln:
             chk.violation('C02:layout:%s:%s:%s:recompute' % (name, dt, par), '%s: a second computation of the same object changes the values / the axis' % name, case)
+        # looking at the object (plot with another layout) does not change what it reports afterwards
+        if _PLOT[0] and name in ('Periodogram', 'pburg', 'pmusic') and tag == '':
+            other = 'centerdc' if dt == 'complex' else 'twosided'
+            okp, _r = call_guard(lambda: (obj.plot(sides=other), _PLOT[0].close('all')))
+            if okp:
+                okq, psd3 = call_guard(lambda: np.array(obj.psd))
+                if not okq or obj.sides != sides or len(psd3) != ln or len(obj.frequencies()) != ln:
+                    chk.violation('C02:layout:%s:%s:%s:changed-by-plot' % (name, dt, par),
+                                  '%s: after plot(sides=%r) the object reports sides=%s, %d values, %d frequencies (expected %s, %d)'
+                                  % (name, other, obj.sides, len(psd3) if okq else -1, len(obj.frequencies()), sides, ln), case)
     chk.replayed += 1
     chk.count('layout', 'replayed')
     if arg == 1:
